@@ -1,7 +1,7 @@
 (* C14: the statements exported to Props/C14.v, with boolean-checkable hypotheses. *)
 From Coq Require Import List Arith Bool Lia.
 From SV Require Import C14.Scc C14.SccSpec C14.SccLemmas C14.KahnProofs C14.TopoProofs
-     C14.TarjanInv C14.TarjanProofs C14.CondenseProofs C14.SccSpecProofs.
+     C14.TarjanInv C14.TarjanProofs C14.TarjanReach C14.TarjanFull C14.CondenseProofs C14.SccSpecProofs.
 Import ListNotations.
 
 (* ---- (1) topological_sort, for duplicate-free node lists *)
@@ -57,24 +57,41 @@ Lemma topo_edges_spec n edges :
               (out = None <-> has_cycle (graph_of_edges n edges) (seq 0 n)).
 Proof. apply topo_spec_holds. apply nodupb_seq. Qed.
 
-(* ---- (4) Tarjan's full correctness: NOT proved in general (needs the reachability part of Tarjan's
-   invariant).  Full statement kept here; what is proved: the partition half (above) and the soundness of the
-   boolean certificate scc_check, which the harness evaluates in the kernel on the model's and the
-   implementation's output of every explored case. *)
-Definition scc_classes_full_statement : Prop :=
-  forall g nodes cs, scc g nodes = Some cs -> scc_classes g nodes cs.
-Definition scc_order_full_statement : Prop :=
-  forall g nodes cs, scc g nodes = Some cs -> sinks_first g nodes cs.
+(* ---- (4) Tarjan's full correctness, for every graph and every node list *)
+Lemma scc_components_strongly_connected_thm g nodes cs :
+  scc g nodes = Some cs -> forall x y, same_comp cs x y -> mutual g nodes x y.
+Proof. apply scc_components_strongly_connected. Qed.
 
-Lemma scc_classes_order_partial g nodes cs :
-  scc g nodes = Some cs -> scc_check g nodes cs = true ->
-  is_partition nodes cs /\ scc_classes g nodes cs /\ sinks_first g nodes cs.
-Proof. intros _ H. apply scc_check_sound. exact H. Qed.
+(* components are exactly the classes of mutual reachability *)
+Lemma scc_classes_holds g nodes cs : scc g nodes = Some cs -> scc_classes g nodes cs.
+Proof. apply scc_classes_thm. Qed.
 
-(* with the certificate, condense needs no further hypothesis *)
-Lemma condense_certified g nodes cs :
-  scc g nodes = Some cs -> scc_check g nodes cs = true ->
-  exists succs, condense g nodes = Some (cs, succs) /\ cond_spec g nodes (cs, succs).
+(* sinks first: no edge from an earlier component to a later one *)
+Lemma scc_order_holds g nodes cs : scc g nodes = Some cs -> sinks_first g nodes cs.
+Proof. apply scc_sinks_first. Qed.
+
+(* the whole statement about strongly_connected_components *)
+Lemma scc_spec_holds g nodes : exists cs, scc g nodes = Some cs /\ scc_spec g nodes cs.
 Proof.
-  intros Hs Hc. apply condense_thm; [exact Hs|]. apply scc_check_sound in Hc. apply Hc.
+  destruct (scc_partition g nodes) as [cs [H1 H2]]. exists cs. split; [exact H1|].
+  split; [exact H2|]. split; [apply scc_classes_thm; exact H1 | apply scc_sinks_first; exact H1].
 Qed.
+
+Lemma scc_edges_spec n edges :
+  exists cs, scc_edges n edges = Some cs /\ scc_spec (graph_of_edges n edges) (seq 0 n) cs.
+Proof. apply scc_spec_holds. Qed.
+
+(* condense without any hypothesis *)
+Lemma condense_spec_holds g nodes :
+  exists cs succs, scc g nodes = Some cs /\ condense g nodes = Some (cs, succs) /\
+                   scc_spec g nodes cs /\ cond_spec g nodes (cs, succs).
+Proof.
+  destruct (scc_spec_holds g nodes) as [cs [H1 H2]].
+  destruct (condense_thm g nodes cs H1 (proj1 (proj2 H2))) as [succs [H3 H4]].
+  exists cs, succs. tauto.
+Qed.
+
+(* the kernel-evaluated certificates used by the harness on implementation outputs *)
+Lemma scc_check_certifies g nodes cs :
+  scc_check g nodes cs = true -> is_partition nodes cs /\ scc_classes g nodes cs /\ sinks_first g nodes cs.
+Proof. apply scc_check_sound. Qed.
